@@ -60,7 +60,12 @@ impl SocketSend for ReqSocket {
             if let Some(mut peer) = self.backend.peers.get_async(&next_peer_id).await {
                 self.backend.round_robin.push(next_peer_id.clone());
                 message.push_front(Bytes::new());
-                peer.send_queue.send(Message::Message(message)).await?;
+                let sent = peer.send_queue.send(Message::Message(message)).await;
+                drop(peer);
+                if let Err(e) = sent {
+                    self.backend.peer_disconnected(&next_peer_id);
+                    return Err(e.into());
+                }
                 self.current_request = Some(next_peer_id);
                 return Ok(());
             }
@@ -77,7 +82,12 @@ impl SocketRecv for ReqSocket {
             Some(peer_id) => {
                 if let Some(mut peer) = self.backend.peers.get_async(&peer_id).await {
                     let received = peer.recv_queue.next().await;
+                    drop(peer);
                     self.current_request = None;
+                    if !matches!(received, Some(Ok(_))) {
+                        // The connection ended or failed: forget the peer
+                        self.backend.peer_disconnected(&peer_id);
+                    }
                     match received {
                         Some(Ok(Message::Message(mut m))) => {
                             if m.len() < 2 {
